@@ -49,9 +49,9 @@ ASSUMPTIONS = ["image and mask have the same 2-d shape; mask is boolean; the smo
 EXHAUSTIVE = {"quick": False, "thorough": False}
 
 # ------------------------------------------------------------------------------------------------ static side
-# hand-written, pinned to the normalised AST: regional_maximum (recursion + loops over the offsets of an arbitrary
-# structure with computed slice bounds); its term is stated over an abstract structure (LocS / ErodeS)
-HAND_TERMS = ["regional_maximum"]
+# all 40 functions are translated from the source; the one construct the evaluator cannot evaluate (regional_maximum's
+# loop over the structure offsets with clipped slice bounds) has a hand-written LOOP SUMMARY pinned to that loop only
+HAND_TERMS = []
 BINARY = ["bridge", "clean", "diag", "endpoints", "branchpoints", "fill", "fill4", "hbreak", "vbreak", "majority",
           "remove", "spur", "thicken", "thin", "skeletonize"]
 LISTED = ["median_filter", "grey_erosion", "grey_dilation", "opening", "closing", "white_tophat", "black_tophat",
@@ -81,6 +81,7 @@ def build_terms(sources):
     import gen_maskflow_c12 as G
     import maskflow_hand_c12 as Hd
     M = G.Module(sources)
+    M.summaries = Hd.summaries(PINS)
     terms, rejected, extra, errors = {}, {}, {}, []
     param = {}
 
@@ -108,8 +109,8 @@ def build_terms(sources):
         attempt(name, lambda builder=builder: builder(M), rejected)
     for name, (fn, builder) in Hd.EXTRA.items():
         attempt(name, lambda fn=fn, builder=builder: (pins_ok(fn), builder(M))[1], extra)
-    for name, (fn, builder) in Hd.PARAM.items():
-        attempt(name, lambda fn=fn, builder=builder: (pins_ok(fn), builder(M))[1], param)
+    for name, fn in Hd.PARAM.items():
+        attempt(name, lambda fn=fn: G.translate(M, fn, struct_id=Hd.SSYM), param)
     for n in LISTED:
         if n not in terms:
             terms[n] = _untranslatable()
@@ -148,7 +149,7 @@ def emit(terms, rejected, extra=None):
         body.append("")
     import maskflow_hand_c12 as Hd
     for name, t in param.items():
-        body.append("(* %s: the term of %s with a symbolic (abstract) structure s *)" % (name, Hd.PARAM[name][0]))
+        body.append("(* %s: the program of %s with a symbolic (abstract) structure s *)" % (name, Hd.PARAM[name]))
         body.append("Definition prog_%s (s : nat) : prog :=\n  %s." % (name, em.prog(t, (Hd.SSYM, "s"))))
         body.append("Lemma %s_ok : forall s, accepts (prog_%s s) = true.\nProof. intros s. unfold accepts, prog_%s. cbn. "
                     "rewrite ?PeanoNat.Nat.eqb_refl. cbn. reflexivity. Qed.\n" % (name, name, name))
